@@ -16,7 +16,7 @@ from .common import COMPONENTS_BASE, run_sim, new_sim, finish_outcome, bounded_s
 
 PID = "C05"
 LEVEL = "exploration"
-BUDGET = {"quick": 60000, "thorough": 1500000}
+BUDGET = {"quick": 300000, "thorough": 6000000}
 RULE = (
     "each run draws a swarm configuration and 1..3 co-tenant scenarios (tool of C01 or all/any, valid "
     "parameters, sources of logging flavours: one-shot sync iterator, __getitem__ sequence, async generator, "
